@@ -4,6 +4,7 @@ import glob
 import hashlib
 import json
 import os
+import re
 import subprocess
 import sys
 import time
@@ -145,6 +146,48 @@ def write_evidence(pid, tier, seed, level, coverage, assumptions, wall_s, violat
     return p
 
 
+# ---- coverage gate -------------------------------------------------------------------------------------------------------
+# A change to /repo can make the engines lose sight of code they used to decide (a std function that has no model yet, a new
+# MIR shape): the affected paths end as "unsupported" and would silently count as "nothing found".  Every check therefore compares
+# its model-gap messages with /verif/coverage-baseline.json (recorded on the unchanged tree, union over several runs and seeds):
+# a gap that is not listed there is reported as COVERAGE-LOSS and the check exits 2 (inconclusive, not a violation, not a pass).
+GAP_NOISE = ('time budget', 'solver unknown', 'step limit', 'path limit', 'deadline', 'timeout', 'timed out', 'did not reproduce', 'does not exhibit',
+             'does not reproduce', 'not reproduce', 'see C03', 'budget')
+SEEDED_PIDS = ('C07', 'C08', 'C11', 'C20')      # their tags depend on VERIF_SEED: keyed by message class instead
+
+
+def gap_key(pid, msg):
+    if 'unsupported:' not in msg and 'machinery error' not in msg:
+        return None
+    if any(w in msg for w in GAP_NOISE):
+        return None
+    if pid in SEEDED_PIDS:
+        body = msg.split('unsupported:', 1)[-1].split(' @ ')[0]
+        body = re.sub(r'0x[0-9a-f]+|\d+', 'N', body)
+        return body.strip()[:80]
+    return msg.split(': ', 1)[0]
+
+
+def coverage_gate(pid, tier, inconclusive):
+    """-> (loss lines, current gap keys)"""
+    keys = {}
+    for m in inconclusive:
+        k = gap_key(pid, m)
+        if k is not None:
+            keys.setdefault(k, m)
+    try:
+        base = json.load(open(os.path.join(VERIF, 'coverage-baseline.json')))
+    except Exception:
+        return [], sorted(keys)
+    if os.environ.get('VERIF_NO_COVERAGE_GATE'):
+        return [], sorted(keys)
+    allowed = set((base.get(pid) or {}).get(tier) or [])
+    if pid not in base or tier not in base[pid]:
+        return [], sorted(keys)
+    loss = ['COVERAGE-LOSS property=%s %s' % (pid, keys[k][:300]) for k in sorted(keys) if k not in allowed]
+    return loss, sorted(keys)
+
+
 def save_replay(pid, n, obj):
     d = os.path.join(OUT, pid)
     os.makedirs(d, exist_ok=True)
@@ -172,4 +215,7 @@ def corpus_files(groups=None):
         for fn in sorted(os.listdir(fdir)):
             if fn.endswith('.mmm') and not fn.startswith(('scheduler', 'module_', 'multistage', 'mininotation', 'lift_', 'probe', 'slider', 'error_', 'fail_', 'many_errors', 'imported_', 'macro_', 'auto_spread')):
                 out.append(os.path.join(fdir, fn))
+    only = os.environ.get('VERIF_ONLY')       # development aid: restrict to programs whose name starts with one of these prefixes
+    if only:
+        out = [f for f in out if os.path.basename(f).startswith(tuple(only.split(',')))]
     return out
